@@ -23,6 +23,10 @@ CHECKS = {
    technique='the bounded exhaustive explorations of C01-C04 re-run on an ASan+UBSan+_GLIBCXX_ASSERTIONS build, sanitizer reports as oracle',
    text='The same exhaustive edge-coverage exploration (every published name, every accepted double-beta configuration, windows; generator and plumbing entry points in the thorough tier) is executed against the sanitizer build of /repo in recover mode; any AddressSanitizer/UBSan report or fatal signal is a violation identified by kind and top bxdecay0 frame.',
    note='Trusted: GCC ASan/UBSan; float division by zero excluded; uninitialised reads are outside ASan/UBSan.'),
+ 'C06': dict(level='model_checking', ref='DESIGN.md §2 C06', engine='c06',
+   technique='complete enumeration of the finite request grid; acceptance compared cell by cell with the transpiled reference GENBBsub (kernel stubbed) and README rules',
+   text='The complete product (54 names x levels -1..17 x modes 0..25 x 4 window variants = 106704 requests) is issued to fresh decay0_generator instances; accept/reject is compared with the reference rules evaluated on the transpiled Fortran; rejected requests must throw, stay un-initialised and refuse to shoot; accepted ones must produce events satisfying the C03/C04 invariants; mode labels round-trip.',
+   note='Trusted: transpiled GENBBsub rules; gA acceptance against synthetic datasets; README rule for mode 20 (ground state only) overrides the Fortran coercion.'),
 }
 NOT_YET = {
 }
@@ -59,6 +63,7 @@ def main():
         },
         'engines': [
             {'name': 'dx', 'path': 'checks/dx.cc', 'serves_properties': ['C01', 'C02', 'C03', 'C04', 'C08'], 'kind_free_text': 'deviate-choice explorer: forced-position overlay on a counter-hash stream, threshold discovery on the transpiled Fortran model, layers A (edge coverage), B (deviation bounded), C (all discrete paths)'},
+            {'name': 'c06', 'path': 'checks/c06.cc', 'serves_properties': ['C06'], 'kind_free_text': 'complete grid enumeration of initialisation requests against the reference rules'},
             {'name': 'd0ref', 'path': 'tools/f2cxx.py', 'serves_properties': ['C01', 'C02', 'C06'], 'kind_free_text': 'reference model generated from resources/code/decay0/decay0_2020-04-20.for'},
         ],
         'checks': checks,
